@@ -352,6 +352,9 @@ Proof.
     apply levels_NoDupA; assumption.
 Qed.
 
+Theorem grid_first_last : forall k b, (2 <= k)%nat -> level k b 0 == fst b /\ level k b (k - 1) == snd b.
+Proof. intros k b L. split; [apply level_first|apply level_last; exact L]. Qed.
+
 Lemma grid_dimension k bs : rect (length bs) (uniform_grid k bs).
 Proof.
   apply Forall_forall. intros v I. unfold uniform_grid in I. rewrite (product_dimension _ _ I).
@@ -545,7 +548,7 @@ Proof.
 Qed.
 
 (* ------------------------------------------------------------------------------------------ *)
-(* Halton: the bases are the first primes (by computation up to 300 parameters)                 *)
+(* Halton: the bases are the first primes (by kernel computation, up to 300 parameters)         *)
 (* ------------------------------------------------------------------------------------------ *)
 Definition prime (p : nat) : Prop := (2 <= p)%nat /\ forall d, (2 <= d < p)%nat -> (p mod d)%nat <> 0%nat.
 (* l is the list of the first n primes: n entries, increasing, all prime, no prime skipped *)
@@ -636,35 +639,245 @@ Proof.
     exact (D p q (In_firstn _ _ _ Ip) Pq Lq).
 Qed.
 
-Definition halton_base_bound : nat := 300.
-Definition primes_upto_bound : list nat :=
-  match halton_base halton_base_bound with Some l => l | None => [] end.
+(* halton() tries the sieve limits 10, 1010, 2010, ...; the three sieves that serve up to 304 parameters,
+   evaluated once *)
+Definition P10 : list nat := Eval vm_compute in primes_from_2_to 10.
+Definition P1010 : list nat := Eval vm_compute in primes_from_2_to 1010.
+Definition P2010 : list nat := Eval vm_compute in primes_from_2_to 2010.
 
-Definition opt_list_eqb (a : option (list nat)) (b : list nat) : bool :=
-  match a with Some l => (length l =? length b)%nat && forallb (fun xy => (fst xy =? snd xy)%nat) (combine l b) | None => false end.
+Lemma P10_eq : primes_from_2_to 10 = P10.
+Proof. vm_cast_no_check (eq_refl P10). Qed.
+Lemma P1010_eq : primes_from_2_to 1010 = P1010.
+Proof. vm_cast_no_check (eq_refl P1010). Qed.
+Lemma P2010_eq : primes_from_2_to 2010 = P2010.
+Proof. vm_cast_no_check (eq_refl P2010). Qed.
 
-Lemma opt_list_eqb_sound a b : opt_list_eqb a b = true -> a = Some b.
+Lemma P10_prefix : P10 = firstn 4 P2010.
+Proof. vm_cast_no_check (eq_refl P10). Qed.
+Lemma P1010_prefix : P1010 = firstn 169 P2010.
+Proof. vm_cast_no_check (eq_refl P1010). Qed.
+Lemma P10_length : length P10 = 4%nat.
+Proof. reflexivity. Qed.
+Lemma P1010_length : length P1010 = 169%nat.
+Proof. vm_cast_no_check (eq_refl 169%nat). Qed.
+Lemma P2010_length : length P2010 = 304%nat.
+Proof. vm_cast_no_check (eq_refl 304%nat). Qed.
+
+Lemma P2010_first_primes : first_primes 304 P2010.
+Proof. apply check_first_primes_sound. vm_cast_no_check (eq_refl true). Qed.
+
+Lemma halton_base_loop_step fuel big dim :
+  halton_base_loop (S fuel) big dim =
+    if (length (firstn dim (primes_from_2_to big)) =? dim)%nat then Some (firstn dim (primes_from_2_to big))
+    else halton_base_loop fuel (big + 1000) dim.
+Proof. reflexivity. Qed.
+
+(* the enlargement loop of halton(): which sieve serves which parameter count *)
+Lemma halton_base_eq n : (n <= 304)%nat -> halton_base n = Some (firstn n P2010).
 Proof.
-  destruct a as [l|]; cbn; [|discriminate]. rewrite andb_true_iff, Nat.eqb_eq. intros [L F]. f_equal.
-  revert b L F. induction l as [|x l IH]; intros [|y b] L F; cbn in *; try discriminate; [reflexivity|].
-  apply andb_true_iff in F. destruct F as [E F]. apply Nat.eqb_eq in E. subst y. f_equal. apply IH; [lia|exact F].
-Qed.
-
-Lemma primes_upto_bound_ok : first_primes halton_base_bound primes_upto_bound.
-Proof. apply check_first_primes_sound. vm_compute. reflexivity. Qed.
-
-Lemma halton_base_prefix : forall n, (n <= halton_base_bound)%nat -> halton_base n = Some (firstn n primes_upto_bound).
-Proof.
-  assert (H : forallb (fun n => opt_list_eqb (halton_base n) (firstn n primes_upto_bound)) (seq 0 (S halton_base_bound)) = true)
-    by (vm_compute; reflexivity).
-  rewrite forallb_forall in H. intros n L. apply opt_list_eqb_sound, H, in_seq. lia.
+  intros L. unfold halton_base. rewrite halton_base_loop_step, P10_eq, firstn_length, P10_length.
+  destruct (Nat.eqb_spec (Nat.min n 4) n) as [E|NE].
+  - rewrite P10_prefix, firstn_firstn. replace (Nat.min n 4) with n by lia. reflexivity.
+  - replace n with (S (S (n - 2))) at 1 by lia.
+    change (10 + 1000)%nat with 1010%nat.
+    rewrite halton_base_loop_step, P1010_eq, firstn_length, P1010_length.
+    destruct (Nat.eqb_spec (Nat.min n 169) n) as [E|NE2].
+    + rewrite P1010_prefix, firstn_firstn. replace (Nat.min n 169) with n by lia. reflexivity.
+    + change (1010 + 1000)%nat with 2010%nat.
+      rewrite halton_base_loop_step, P2010_eq, firstn_length, P2010_length.
+      destruct (Nat.eqb_spec (Nat.min n 304) n) as [E|NE3]; [reflexivity|lia].
 Qed.
 
 (* the sieve and the enlargement loop of halton() deliver the first n primes, n <= 300 *)
 Theorem primes_correct : forall n, (n <= 300)%nat ->
   exists base, halton_base n = Some base /\ first_primes n base.
 Proof.
-  intros n L. exists (firstn n primes_upto_bound). split.
-  - apply halton_base_prefix. exact L.
-  - exact (first_primes_prefix _ _ n primes_upto_bound_ok L).
+  intros n L. exists (firstn n P2010). split.
+  - apply halton_base_eq. lia.
+  - exact (first_primes_prefix _ _ n P2010_first_primes ltac:(lia)).
+Qed.
+
+(* phi_b(i): the radical inverse of i in base b (i has at most i base-b digits) *)
+Definition phi (b i : nat) : Q := radical_inverse b i i.
+
+Lemma phi_stable b i K : (2 <= b)%nat -> (i < b ^ K)%nat -> radical_inverse b i K == phi b i.
+Proof.
+  intros Hb L. unfold phi.
+  rewrite <- (vdc_radical_inverse b i K Hb L).
+  apply vdc_radical_inverse; [exact Hb|]. apply Nat.pow_gt_lin_r. lia.
+Qed.
+
+(* Halton, assembled: for up to 300 parameters the generator succeeds, its bases are the first primes, and
+   point i (counted from 1: the all-zero burn-in point is dropped), coordinate j is lb_j + phi_{p_j}(i) (ub_j - lb_j) *)
+Theorem halton_points : forall N bs, (length bs <= 300)%nat ->
+  exists base X, first_primes (length bs) base /\ build_halton N bs = Some X /\
+    length X = N /\ rect (length bs) X /\
+    forall i j, (1 <= i <= N)%nat -> (j < length bs)%nat -> blo bs j <= bhi bs j ->
+      mat X (i - 1) j == blo bs j + phi (nth j base 0%nat) i * (bhi bs j - blo bs j).
+Proof.
+  intros N bs L. destruct (primes_correct (length bs) L) as [base [HB FP]].
+  assert (HX : build_halton N bs = Some (scale_rows bs (halton_unit N base))) by (unfold build_halton; rewrite HB; reflexivity).
+  exists base, (scale_rows bs (halton_unit N base)). split; [exact FP|]. split; [exact HX|].
+  destruct (halton_radical_inverse N bs base _ HB HX) as [A [B C]]. split; [exact A|]. split; [exact B|].
+  intros i j Li Lj Hb.
+  destruct FP as [F1 [_ [F3 _]]].
+  assert (P2 : (2 <= nth j base 0)%nat) by (apply (F3 (nth j base 0%nat)); apply nth_In; lia).
+  rewrite (C i j i Li Lj Hb) by (apply Nat.pow_gt_lin_r; lia). reflexivity.
+Qed.
+
+(* ------------------------------------------------------------------------------------------ *)
+(* Random generator                                                                             *)
+(* ------------------------------------------------------------------------------------------ *)
+Lemma round_half_even_close q : - (1 # 2) <= inject_Z (round_half_even q) - q <= 1 # 2.
+Proof.
+  unfold round_half_even.
+  pose proof (Qfloor_le q) as F1. pose proof (Qlt_floor q) as F2.
+  rewrite inject_Z_plus in F2. change (inject_Z 1) with 1 in F2.
+  destruct (Qcompare_spec (q - inject_Z (Qfloor q)) (1 # 2)) as [E|L|G].
+  - destruct (Z.even (Qfloor q)).
+    + split; lra.
+    + rewrite inject_Z_plus. change (inject_Z 1) with 1. split; lra.
+  - split; lra.
+  - rewrite inject_Z_plus. change (inject_Z 1) with 1. split; lra.
+Qed.
+
+Lemma eff_precision_pos prec : 0 <= prec -> 0 < eff_precision prec.
+Proof.
+  intros H. unfold eff_precision. destruct (Qeq_bool prec 0) eqn:E.
+  - reflexivity.
+  - apply Qeq_bool_neq in E. lra.
+Qed.
+
+Lemma gen_number_close lo hi prec u : 0 <= prec ->
+  let p := eff_precision prec in
+  - (p / 2) <= gen_number lo hi prec u - (u * (hi - lo) + lo) <= p / 2.
+Proof.
+  intros Hp p. unfold gen_number. fold p.
+  pose proof (eff_precision_pos prec Hp) as Pp. fold p in Pp.
+  set (x := u * (hi - lo) + lo).
+  pose proof (round_half_even_close (x / p)) as [R1 R2].
+  set (k := inject_Z (round_half_even (x / p))) in *.
+  assert (E : k * p - x == (k - x / p) * p) by (field; lra).
+  assert (H2 : p / 2 == (1 # 2) * p) by field.
+  rewrite E, H2. split.
+  - apply Qle_trans with ((- (1 # 2)) * p); [lra|]. apply Qmult_le_compat_r; lra.
+  - apply Qle_trans with ((1 # 2) * p); [|lra]. apply Qmult_le_compat_r; lra.
+Qed.
+
+Definition ok_param (p : Q * Q * Q) : Prop := fst (fst p) <= snd (fst p) /\ 0 <= snd p.
+(* within the box up to half a unit of the (effective) precision *)
+Definition in_box_p (p : Q * Q * Q) (x : Q) : Prop :=
+  fst (fst p) - eff_precision (snd p) / 2 <= x <= snd (fst p) + eff_precision (snd p) / 2.
+
+Lemma gen_number_in_box lo hi prec u : lo <= hi -> 0 <= prec -> in_unit u -> in_box_p (lo, hi, prec) (gen_number lo hi prec u).
+Proof.
+  intros Hb Hp [U0 U1]. unfold in_box_p. cbn [fst snd].
+  pose proof (gen_number_close lo hi prec u Hp) as [C1 C2]. cbv zeta in C1, C2.
+  assert (0 <= u * (hi - lo)) by (apply Qmult_le_0_compat; lra).
+  assert (0 <= (1 - u) * (hi - lo)) by (apply Qmult_le_0_compat; lra).
+  split; lra.
+Qed.
+
+Lemma gen_vector_spec ps : forall tape v rest, Forall ok_param ps -> Forall in_unit tape ->
+  gen_vector ps tape = Some (v, rest) ->
+  Forall2 in_box_p ps v /\ Forall in_unit rest /\ length tape = (length ps + length rest)%nat.
+Proof.
+  induction ps as [|[[lo hi] prec] ps IH]; intros tape v rest Hok Hu H; cbn in H.
+  - inversion H; subst. repeat split; [constructor|assumption].
+  - destruct tape as [|u tape]; [discriminate|].
+    destruct (gen_vector ps tape) as [[v' rest']|] eqn:E; [|discriminate].
+    inversion H; subst. inversion Hok as [|? ? [Hb Hp] Hok']; subst. inversion Hu as [|? ? Hu0 Hu']; subst.
+    destruct (IH tape v' rest Hok' Hu' E) as [A [B C]]. cbn [fst snd] in Hb, Hp. repeat split.
+    + constructor; [apply gen_number_in_box; assumption|exact A].
+    + exact B.
+    + cbn. rewrite C. reflexivity.
+Qed.
+
+Lemma random_loop_spec N ps : forall tape vs rest, Forall ok_param ps -> Forall in_unit tape ->
+  random_generate_loop N ps tape = Some (vs, rest) ->
+  length vs = N /\ Forall (Forall2 in_box_p ps) vs /\ length tape = (N * length ps + length rest)%nat.
+Proof.
+  induction N as [|N IH]; intros tape vs rest Hok Hu H; cbn in H.
+  - inversion H; subst. repeat split. constructor.
+  - destruct (gen_vector ps tape) as [[v r1]|] eqn:E1; [|discriminate].
+    destruct (random_generate_loop N ps r1) as [[vs' r2]|] eqn:E2; [|discriminate].
+    inversion H; subst.
+    destruct (gen_vector_spec ps tape v r1 Hok Hu E1) as [A [B C]].
+    destruct (IH r1 vs' rest Hok B E2) as [D [F G]]. repeat split.
+    + cbn. rewrite D. reflexivity.
+    + constructor; assumption.
+    + lia.
+Qed.
+
+Theorem random_count_in_box : forall N ps tape vs, Forall ok_param ps -> Forall in_unit tape ->
+  random_generate N ps tape = Some vs ->
+  length vs = N /\ Forall (Forall2 in_box_p ps) vs /\ length tape = (N * length ps)%nat.
+Proof.
+  intros N ps tape vs Hok Hu H. unfold random_generate in H.
+  destruct (random_generate_loop N ps tape) as [[vs' rest]|] eqn:E; [|discriminate].
+  destruct rest; [|discriminate]. inversion H; subst.
+  destruct (random_loop_spec N ps tape vs [] Hok Hu E) as [A [B C]]. cbn in C. repeat split; try assumption. lia.
+Qed.
+
+Lemma gen_vector_total ps : forall tape, (length ps <= length tape)%nat ->
+  exists v, gen_vector ps tape = Some (v, skipn (length ps) tape).
+Proof.
+  induction ps as [|[[lo hi] prec] ps IH]; intros tape L; cbn.
+  - eexists. reflexivity.
+  - destruct tape as [|u tape]; [cbn in L; lia|]. cbn in L.
+    destruct (IH tape ltac:(lia)) as [v E]. rewrite E. eexists. reflexivity.
+Qed.
+
+Lemma skipn_add {A : Type} b : forall a (l : list A), skipn a (skipn b l) = skipn (b + a) l.
+Proof.
+  induction b as [|b IH]; intros a l; [reflexivity|].
+  destruct l as [|x l]; cbn [skipn plus]; [destruct a; reflexivity|apply IH].
+Qed.
+
+Lemma random_loop_total N ps : forall tape, (N * length ps <= length tape)%nat ->
+  exists vs, random_generate_loop N ps tape = Some (vs, skipn (N * length ps) tape).
+Proof.
+  induction N as [|N IH]; intros tape L; cbn [random_generate_loop].
+  - eexists. reflexivity.
+  - destruct (gen_vector_total ps tape ltac:(lia)) as [v E]. rewrite E.
+    destruct (IH (skipn (length ps) tape)) as [vs E2]; [rewrite skipn_length; lia|].
+    rewrite E2. eexists. rewrite skipn_add. reflexivity.
+Qed.
+
+(* the generator consumes exactly one draw per coordinate: with N * n draws on the tape it succeeds *)
+Theorem random_total : forall N ps tape, length tape = (N * length ps)%nat ->
+  exists vs, random_generate N ps tape = Some vs.
+Proof.
+  intros N ps tape L. destruct (random_loop_total N ps tape ltac:(lia)) as [vs E].
+  unfold random_generate. rewrite E. rewrite skipn_all2 by lia. eexists. reflexivity.
+Qed.
+
+(* ------------------------------------------------------------------------------------------ *)
+(* One coordinate per declared parameter, for all four                                          *)
+(* ------------------------------------------------------------------------------------------ *)
+Lemma Forall2_same_length {A B : Type} (R : A -> B -> Prop) l l' : Forall2 R l l' -> length l = length l'.
+Proof. induction 1; cbn; congruence. Qed.
+
+Lemma random_dimension N ps tape vs : Forall ok_param ps -> Forall in_unit tape ->
+  random_generate N ps tape = Some vs -> rect (length ps) vs.
+Proof.
+  intros Hok Hu H. destruct (random_count_in_box N ps tape vs Hok Hu H) as [_ [F _]].
+  unfold rect. rewrite Forall_forall in *. intros v I. symmetry. exact (Forall2_same_length _ _ _ (F v I)).
+Qed.
+
+Lemma halton_dimension N bs X : build_halton N bs = Some X -> rect (length bs) X.
+Proof.
+  intros HX. unfold build_halton in HX. destruct (halton_base (length bs)) as [base|] eqn:HB; [|discriminate].
+  assert (HX' : build_halton N bs = Some X) by (unfold build_halton; rewrite HB; exact HX).
+  exact (proj1 (proj2 (halton_radical_inverse N bs base X HB HX'))).
+Qed.
+
+Theorem dimension_ok :
+  (forall N bs u perms, length (build_lhs N bs u perms) = N /\ rect (length bs) (build_lhs N bs u perms)) /\
+  (forall N bs X, build_halton N bs = Some X -> rect (length bs) X) /\
+  (forall k bs, rect (length bs) (uniform_grid k bs)) /\
+  (forall N ps tape vs, Forall ok_param ps -> Forall in_unit tape ->
+     random_generate N ps tape = Some vs -> rect (length ps) vs).
+Proof.
+  split; [intros; split; [apply lhs_length|apply lhs_dimension]|]. split; [exact halton_dimension|]. split; [exact grid_dimension|exact random_dimension].
 Qed.
